@@ -215,10 +215,34 @@ template <class Cfg> struct Runner
                         ctx.sample(vh::S() << mkid() << ": dst(" << (axis == 0 ? L : 0) << "," << (axis == 1 && h > L ? L : 0) << ")[0]="
                                            << double(dvx(axis == 0 ? L : 0, (axis == 1 && h > L) ? L : 0)[0]));
                 };
+                // a destination whose rows are not contiguous: a sub-view of a larger guarded canvas (the source is a whole image for the
+                // four non-padded options); every canvas byte outside the view must be left alone
+                Buf<typename Cfg::dst_px> canvas(w + 3, h + 2);
+                auto dsub = gil::subimage_view(canvas.view(), 2, 1, w, h);
                 for (Content const& ct : contents)
                 {
                     one(ct, dv, false);
                     if (fails_here >= 64) break;
+                    if (ct.kind == RAMP || ct.kind == IMPULSE)
+                    {
+                        if (canvas.g.size()) std::memset(canvas.g.data(), 0x6B, canvas.g.size());
+                        one(ct, dsub, false);
+                        ++ctx.witness["destination_sub_view"];
+                        long outside = 0;
+                        const size_t pxb = sizeof(typename Cfg::dst_px);
+                        for (int cy = 0; cy < h + 2; ++cy) for (int cx = 0; cx < w + 3; ++cx)
+                        {
+                            if (cx >= 2 && cx < 2 + w && cy >= 1 && cy < 1 + h) continue;
+                            const unsigned char* b = canvas.g.data() + (size_t(cy) * size_t(w + 3) + size_t(cx)) * pxb;
+                            for (size_t k = 0; k < pxb; ++k) if (b[k] != 0x6B) ++outside;
+                        }
+                        if (outside || !canvas.g.intact())
+                        {
+                            ++fails_here;
+                            ctx.fail(vh::S() << Cfg::name() << "/" << FN_NAME[fn] << "/" << opt_name(opt) << "/" << w << "x" << h << "/k" << ks << "c" << cc << "/dst-sub-view", "write-outside-destination-view", vh::S() << outside << " canvas byte(s) around the destination view changed");
+                        }
+                        if (fails_here >= 64) break;
+                    }
                     in_place(one, ct, gil::subimage_view(store.mview(), ox, oy, w, h), std::integral_constant<bool, (std::is_same<typename Cfg::src_px, typename Cfg::dst_px>::value && !Cfg::planar_src)>());
                     if (fails_here >= 64) break;
                 }
